@@ -568,6 +568,112 @@ theorem decode_ne_panic (s : Bytes) : decode s ≠ .panic := by
   have := decLoop_ne_panic (s.drop (countOnes s)).reverse 0 0
   split <;> simp_all
 
+/-! ### a lower bound on the decoded length (long strings are not addresses) -/
+
+theorem foldl_digits_shift (b : Nat) (t : List Nat) : ∀ v,
+    t.foldl (fun v d => v * b + d) v = v * b ^ t.length + t.foldl (fun v d => v * b + d) 0 := by
+  induction t with
+  | nil => intro v; simp
+  | cons d t ih =>
+    intro v
+    simp only [List.foldl_cons, List.length_cons]
+    rw [ih (v * b + d), ih (0 * b + d)]
+    simp only [Nat.zero_mul, Nat.zero_add, Nat.pow_succ, Nat.add_mul]
+    rw [Nat.mul_assoc, Nat.mul_comm b (b ^ t.length)]
+    omega
+
+theorem ofDigits_cons (b h : Nat) (t : List Nat) :
+    ofDigits b (h :: t) = h * b ^ t.length + ofDigits b t := by
+  simp only [ofDigits, List.foldl_cons, Nat.zero_mul, Nat.zero_add]
+  exact foldl_digits_shift b t h
+
+theorem ofDigits_lt (b : Nat) (hb : 1 ≤ b) (ds : List Nat) (h : ∀ d ∈ ds, d < b) :
+    ofDigits b ds < b ^ ds.length := by
+  induction ds with
+  | nil => simp [ofDigits]
+  | cons d ds ih =>
+    rw [ofDigits_cons]
+    have hd := h d (by simp)
+    have := ih (fun x hx => h x (by simp [hx]))
+    simp only [List.length_cons, Nat.pow_succ]
+    have h1 : d * b ^ ds.length + b ^ ds.length ≤ b ^ ds.length * b := by
+      rw [Nat.mul_comm (b ^ ds.length) b, ← Nat.succ_mul]
+      exact Nat.mul_le_mul_right _ hd
+    omega
+
+theorem pow58_ge (k : Nat) : 256 ^ (2 * (k / 3)) ≤ 58 ^ k := by
+  have h3 : (256 : Nat) ^ 2 ≤ 58 ^ 3 := by decide
+  have : 256 ^ (2 * (k / 3)) ≤ 58 ^ (3 * (k / 3)) := by
+    rw [Nat.pow_mul, Nat.pow_mul]
+    exact Nat.pow_le_pow_left h3 _
+  exact Nat.le_trans this (Nat.pow_le_pow_right (by decide) (Nat.mul_div_le k 3))
+
+/-- a string of at least 41 characters decodes to at least 27 bytes (so, after the four checksum
+    bytes, to a payload that is too long for an address) -/
+theorem decode_length_ge (s bs : Bytes) (h : decode s = .ok bs) (hl : 41 ≤ s.length) : 27 ≤ bs.length := by
+  obtain ⟨hsplit, hhead⟩ := countOnes_split s
+  unfold decode at h
+  simp only at h
+  have hall : ∀ c ∈ s.drop (countOnes s), (indexOf alphabet c).isSome := by
+    intro c hc
+    cases hi : indexOf alphabet c with
+    | some _ => rfl
+    | none =>
+      have := decLoop_err (s.drop (countOnes s)).reverse ⟨c, by simpa using hc, hi⟩ 0 0
+      rw [this] at h; cases h
+  rw [decLoop_rev _ hall] at h
+  simp only at h
+  injection h with h
+  subst h
+  generalize hrest : s.drop (countOnes s) = rest at *
+  have hsl : s.length = countOnes s + rest.length := by
+    conv => lhs; rw [hsplit]
+    simp
+  simp only [List.length_append, List.length_replicate]
+  cases hr : rest with
+  | nil =>
+    rw [hr] at hsl
+    simp at hsl
+    simp [natBytes_eq, toDigits_zero, ofDigits]
+    omega
+  | cons c cs =>
+    rw [← hr]
+    -- the first remaining character is not '1', so its digit is not zero
+    have hc0 : idx c ≠ 0 := by
+      intro h0
+      have hcm : c ∈ rest := by rw [hr]; simp
+      have := hall c hcm
+      cases hi : indexOf alphabet c with
+      | none => rw [hi] at this; cases this
+      | some i =>
+        have hi0 : i = 0 := by simpa [idx, hi] using h0
+        subst hi0
+        have : c = dchar 0 := (dchar_idx hi).1.symm
+        rw [hr] at hhead
+        simp at hhead
+        exact hhead this
+    have hval : 58 ^ cs.length ≤ ofDigits 58 (rest.map idx) := by
+      rw [hr, List.map_cons, ofDigits_cons, List.length_map]
+      have : 1 * 58 ^ cs.length ≤ idx c * 58 ^ cs.length := Nat.mul_le_mul_right _ (by omega)
+      omega
+    generalize ofDigits 58 (rest.map idx) = v at hval
+    have hn : v < 256 ^ (natBytes v).length := by
+      have h1 := ofDigits_lt 256 (by decide) (toDigits 256 v []) (toDigits_lt (by decide) v)
+      rw [ofDigits_toDigits (by decide)] at h1
+      rw [natBytes_eq, List.length_map]
+      exact h1
+    have hpow := pow58_ge cs.length
+    have hlt : 256 ^ (2 * (cs.length / 3)) < 256 ^ (natBytes v).length := by omega
+    have hn2 : 2 * (cs.length / 3) < (natBytes v).length := by
+      apply Decidable.byContradiction
+      intro hge
+      have : 256 ^ (natBytes v).length ≤ 256 ^ (2 * (cs.length / 3)) :=
+        Nat.pow_le_pow_right (by decide) (by omega)
+      omega
+    rw [hr] at hsl
+    simp only [List.length_cons] at hsl
+    omega
+
 /-! ### Base58Check, for an arbitrary checksum function -/
 
 namespace Check
